@@ -411,15 +411,19 @@ def IIRes.cons (b : Nat) : IIRes → IIRes
   | .found d r => .found (b :: d) r
   | r => r
 
-/-- the search loop of `readInlineImage` (no `Length` key); `n` = bytes collected so far -/
+/-- the search loop of `readInlineImage` (no `Length` key); `n` = bytes collected so far,
+    including the end-of-line byte before `EI`.  The `EI` test comes first, the cap is tested
+    afterwards and is `n > maxInlineImageBytes`: data of up to `maxInlineImageBytes` bytes is
+    found, the limit of the `Length` branch (`noL_cap_eq_L_cap` in Props/C15cnti.lean; D-C15-2:
+    the loop `for len(imageData) < maxInlineImageBytes` found at most `maxInlineImageBytes - 2`). -/
 def iiLoop : (n : Nat) → (prev : Nat) → Bytes → IIRes
   | n, prev, [] =>
-    if n ≥ Gen.content_maxInlineImageBytes then .capped []
-    else if (prev == 13 || prev == 10) && checkEI [] then .found [] []
+    if (prev == 13 || prev == 10) && checkEI [] then .found [] []
+    else if n > Gen.content_maxInlineImageBytes then .capped []
     else .eof
   | n, prev, b :: r =>
-    if n ≥ Gen.content_maxInlineImageBytes then .capped (b :: r)
-    else if (prev == 13 || prev == 10) && checkEI (b :: r) then .found [] (b :: r)
+    if (prev == 13 || prev == 10) && checkEI (b :: r) then .found [] (b :: r)
+    else if n > Gen.content_maxInlineImageBytes then .capped (b :: r)
     else (iiLoop (n + 1) b r).cons b
 
 /-- `SkipString("EI")` and the check of the following byte -/
@@ -433,18 +437,23 @@ def iiFinish (kv : List (Bytes × Obj)) (data : Bytes) (inp : Bytes) : Res (Byte
   | [] => .eof
   | _ => .perr inp
 
-/-- the input after `ID`: one white-space byte is skipped, and for ASCII filters all further
-    white space and comments (`SkipWhiteSpace`) -/
+/-- ASCII filter and no positive `Length`: white space and comments before the data are skipped -/
+def skipsWS (kv : List (Bytes × Obj)) : Bool :=
+  isASCIIFilter (iiFilter kv) && decide (iiInt kv nmL nmLength ≤ 0)
+
+/-- the input after `ID`: one white-space byte is skipped, and for ASCII filters without a
+    positive `Length` all further white space and comments (`SkipWhiteSpace`; with a `Length`
+    the data starts right here, D-C15-9) -/
 def afterID (kv : List (Bytes × Obj)) (rest : Bytes) : Bytes :=
   let rest := match rest with
     | c :: r => if cSpace c then r else c :: r
     | [] => []
-  if isASCIIFilter (iiFilter kv) then skipWS rest else rest
+  if skipsWS kv then skipWS rest else rest
 
 /-- the data of an inline image and the `EI` behind it; `rest` = `afterID …` -/
 def imageData (kv : List (Bytes × Obj)) (rest : Bytes) : Res (Bytes × List Obj) :=
   let length := iiInt kv nmL nmLength
-  if isASCIIFilter (iiFilter kv) && rest.isEmpty then .eof
+  if skipsWS kv && rest.isEmpty then .eof
   else if length > 0 then
     if length > Gen.content_maxInlineImageBytes then .perr rest
     else if rest.length < length.toNat then .eof
